@@ -76,8 +76,7 @@ class Check(HCheck):
         obs = []
         for wid in g.weids():
             pl = g.prefixes[wid]
-            for order in list(itertools.permutations(pl))[:6]:
-                order = list(order)
+            for order in al.few_orders(pl):
                 for co in (False, True):
                     try:
                         ref = t.get_webentity_crawled_pages(wid, order) if co else t.get_webentity_pages(wid, order)
